@@ -2,13 +2,13 @@ package main
 
 import (
 	"bytes"
-	"regexp"
 	"fmt"
 	"go/ast"
 	"go/printer"
 	"go/token"
 	"go/types"
 	"os"
+	"regexp"
 	"sort"
 	"strings"
 
@@ -120,17 +120,17 @@ type inliner struct {
 	notes []string
 	edits map[string][]inlineEdit
 	// per file: import name -> path that must be added
-	addImports map[string]map[string]string
-	inlinedAll map[*types.Func]int // calls inlined
-	unrolled   int
-	exprInlined int
-	scalarised  int
+	addImports   map[string]map[string]string
+	inlinedAll   map[*types.Func]int // calls inlined
+	unrolled     int
+	exprInlined  int
+	scalarised   int
 	inReturnExpr bool
-	substRecv   bool   // current call: the receiver is substituted, not bound
-	substParam  []bool // current call: per parameter
+	substRecv    bool   // current call: the receiver is substituted, not bound
+	substParam   []bool // current call: per parameter
 	// a package-level type whose name is taken by a local of the caller is addressed through a
 	// file-level alias in the expanded text
-	aliasDecls map[string]map[string]bool    // file -> "type X__inlT = X"
+	aliasDecls map[string]map[string]bool                // file -> "type X__inlT = X"
 	renames    map[*ast.FuncDecl]map[types.Object]string // current call: object -> alias name
 }
 
